@@ -36,6 +36,8 @@ type prover struct {
 	extraConds []Cond
 	pendingPhiInt [][2]ssa.Value // (phi, edge value) equalities for the current case
 	phiAlias      [][2]ssa.Value // non-integer phis standing for the edge value
+	noInvFor      *ssa.BasicBlock // do not assume loop invariants of this loop (entry-edge proofs)
+	invAdded      map[int]bool
 }
 
 type bndEngine struct {
@@ -514,6 +516,33 @@ func (p *prover) linPhi(x *ssa.Phi) linExpr {
 	if !isIntType(x.Type()) {
 		return linVar(k)
 	}
+	// a join phi (not a loop head) whose incoming values differ from each other by constants:
+	// bounded by the smallest and the largest of them
+	if !isLoopHead(x.Block()) && len(x.Edges) >= 2 && p.depth < 25 {
+		base := p.lin(x.Edges[0])
+		minC, maxC := new(big.Rat), new(big.Rat)
+		okJ := true
+		for _, e := range x.Edges[1:] {
+			d := p.lin(e).sub(base)
+			if !d.isConst() {
+				okJ = false
+				break
+			}
+			if d.C.Cmp(minC) < 0 {
+				minC.Set(d.C)
+			}
+			if d.C.Cmp(maxC) > 0 {
+				maxC.Set(d.C)
+			}
+		}
+		if okJ {
+			lo, hi := newLin(), newLin()
+			lo.C.Set(minC)
+			hi.C.Set(maxC)
+			p.add(constraint{linVar(k).sub(base.add(lo)), "join of values that differ by constants"})
+			p.add(constraint{base.add(hi).sub(linVar(k)), "join of values that differ by constants"})
+		}
+	}
 	// induction: edges that are phi+c (or phi itself) vs initial edges
 	var inits []ssa.Value
 	minStep, maxStep := int64(0), int64(0)
@@ -673,6 +702,9 @@ func (p *prover) lenKey(v ssa.Value) string {
 			return "len(" + k + ")"
 		}
 	}
+	if f, ok := v.(*ssa.Field); ok {
+		return "len(" + p.prefix + valueRoot(f.X) + "." + fieldName(f.X.Type(), f.Field) + ")"
+	}
 	return "len(" + p.valKey(v) + ")"
 }
 
@@ -699,6 +731,7 @@ func (p *prover) lenOf(v ssa.Value) linExpr {
 	if first {
 		p.defined[k] = true
 		p.add(constraint{linVar(k), "len >= 0"})
+		p.add(constraint{linConst(1<<31 - 1).sub(linVar(k)), "A5: lengths fit in 31 bits"})
 	}
 	eq := func(e linExpr, why string) {
 		p.add(constraint{linVar(k).sub(e), why})
@@ -790,6 +823,7 @@ func (p *prover) addCond(c Cond) {
 	}
 	isNum := func(v ssa.Value) bool { return isIntType(v.Type()) }
 	if !isNum(b.X) || !isNum(b.Y) {
+		p.eng.condModel(p, c)
 		// nil comparisons of slices/maps: x == nil  =>  len(x) == 0
 		if isNilConst(b.Y) && (b.Op == token.EQL || b.Op == token.NEQ) {
 			switch b.X.Type().Underlying().(type) {
@@ -864,7 +898,11 @@ func (p *prover) requireFacts(prm *ssa.Parameter, k string) {
 
 func (p *prover) requireLenFacts(prm *ssa.Parameter, k string) {
 	fn := prm.Parent()
-	for _, rq := range p.eng.requires[FuncName(fn)] {
+	name := FuncName(fn)
+	if o := fn.Origin(); o != nil {
+		name = FuncName(o)
+	}
+	for _, rq := range p.eng.requires[name] {
 		if rq.Kind == "len>=" && rq.Param < len(fn.Params) && fn.Params[rq.Param] == prm {
 			p.add(constraint{linVar(k).add(linConst(-rq.K)), "precondition: " + rq.Why})
 			p.used["precondition of "+FuncName(fn)+": "+rq.Why+" (checked at every call site)"] = true
@@ -875,7 +913,11 @@ func (p *prover) requireLenFacts(prm *ssa.Parameter, k string) {
 func (p *prover) requireLenFactsFree(fv *ssa.FreeVar, k string) {
 	par := fv.Parent().Parent()
 	for par != nil {
-		for _, rq := range p.eng.requires[FuncName(par)] {
+		name := FuncName(par)
+		if o := par.Origin(); o != nil {
+			name = FuncName(o)
+		}
+		for _, rq := range p.eng.requires[name] {
 			if rq.Kind == "len>=" && rq.Param < len(par.Params) && par.Params[rq.Param].Name() == fv.Name() {
 				p.add(constraint{linVar(k).add(linConst(-rq.K)), "precondition: " + rq.Why})
 				p.used["precondition of "+FuncName(par)+": "+rq.Why+" (checked at every call site)"] = true
